@@ -18,6 +18,8 @@ def instrument(g):
         probe = ('apply', ('expect', ('rx', '(?s).*')), ('py', 'lambda rest: note(%r, len(rest))' % name))
         if r[2] is not None:
             rules.append(r)                      # templates are not the property's subject
+        elif r[0] == 'rule' and r[3][0] == 'ref':
+            rules.append(r)                      # keep plain aliases plain: their target is probed
         elif r[0] == 'rule':
             rules.append(('rule', name, None, ('right', probe, r[3])))
         else:
@@ -116,7 +118,7 @@ class C07(Check):
         elif r != 'skip' and not sut.agrees(sut.expected(r, t), got):
             bad = ('instrumented-outcome', '%r vs %r' % (sut.expected(r, t), got))
         else:
-            nrules = sum(1 for rr in g.rules if rr[2] is None)
+            nrules = sum(1 for rr in g.rules if rr[2] is None and not (rr[0] == 'rule' and rr[3][0] == 'ref'))
             bad = check_log(log, nrules, t, exclude)
         multi = r != 'skip' and any(c >= 2 for (rn, _), c in it.refcalls.items() if rn not in exclude)
         if multi:
@@ -158,6 +160,11 @@ class C07(Check):
             rules.append(('rule', 'TwiceK', None, ('apply', ('seq', [('expect', ('ref', 'K0')), ('ref', 'K0')]), ('py', 'same'))))
             rules.append(('rule', 'Alt', None, ('choice', [('seq', [('ref', 'R0'), ('lit', '!')]), ('seq', [('ref', 'R0'), ('lit', '?')]),
                                                            ('seq', [('ref', 'R0'), ('opt', ('ref', 'R1'))])])))
+            # alias rules (a body that is a bare reference) next to direct references
+            rules.append(('rule', 'A1', None, ('ref', 'R0')))
+            rules.append(('rule', 'A2', None, ('ref', 'A1')))
+            rules.append(('rule', 'ViaAlias', None, ('choice', [('seq', [('ref', 'A1'), ('lit', '!')]), ('seq', [('ref', 'R0'), ('lit', '?')]),
+                                                                ('seq', [('expect', ('ref', 'A2')), ('ref', 'R0'), ('opt', ('ref', 'A1'))])])))
             rules.append(('rule', 'start', None, ('choice', [('seq', [('ref', 'R0'), ('ref', 'R1'), ('lit', 'Z')]),
                                                              ('seq', [('ref', 'R0'), ('ref', 'R1'), ('opt', ('ref', 'R2'))])])))
             g2 = g.copy(rules=rules)
@@ -178,7 +185,7 @@ class C07(Check):
                 return
             res.hist['grammars'] += 1
             pg = {'same': lambda pair: [True, pair[1]]}
-            for name in ('start', 'Alt', 'TwiceL', 'TwiceK', 'R0'):
+            for name in ('start', 'Alt', 'ViaAlias', 'TwiceL', 'TwiceK', 'R0'):
                 hang = False
                 for t in inputs:
                     bad, got, raw = self.run_one(res, g2, gi, mod, name, t, 'hyp', exclude)
